@@ -65,6 +65,27 @@ Proof.
   destruct (S256_cases x H) as [[? ->]|[? ->]]; lia.
 Qed.
 
+(* ------------------------------------------------------------ narrowing *)
+
+Lemma two64_eq : two64 = 18446744073709551616.
+Proof. reflexivity. Qed.
+
+Lemma pow63_eq : 2 ^ 63 = 9223372036854775808.
+Proof. reflexivity. Qed.
+
+Lemma wrap64_small x : 0 <= x < two64 -> wrap64 x = x.
+Proof. intros. unfold wrap64. apply Z.mod_small. assumption. Qed.
+
+Lemma big_Uint64_small x : 0 <= x < two64 -> big_Uint64 x = x.
+Proof. intros. unfold big_Uint64. rewrite Z.abs_eq by lia. apply wrap64_small. assumption. Qed.
+
+Lemma big_Int64_small x : 0 <= x < 2 ^ 63 -> big_Int64 x = x.
+Proof.
+  intros H. pose proof two64_eq. pose proof pow63_eq.
+  unfold big_Int64. rewrite big_Uint64_small by lia. unfold to_int64.
+  destruct (Z.ltb_spec x (2 ^ 63)); lia.
+Qed.
+
 (* ------------------------------------------------------------ easy ones *)
 
 Theorem op_ADD_spec : forall a b, word a -> word b -> op_ADD a b = spec_ADD a b.
@@ -182,6 +203,7 @@ Theorem op_BYTE_spec : forall a b, word a -> word b -> op_BYTE a b = spec_BYTE a
 Proof.
   intros i x Hi Hx. unfold op_BYTE, spec_BYTE, math_Byte. unfold word in Hi.
   destruct (Z.ltb_spec i 32); [|reflexivity].
+  rewrite big_Int64_small by (pose proof pow63_eq; lia).
   destruct (Z.geb_spec i 32); [lia|].
   rewrite land_255. rewrite Z.shiftr_div_pow2 by lia.
   replace (32 - 1 - i) with (31 - i) by lia. reflexivity.
@@ -192,6 +214,7 @@ Proof.
   intros s v Hs Hv. unfold op_SHL, spec_SHL.
   rewrite (U256_small s), (U256_small v) by assumption. unfold word in Hs.
   destruct (Z.ltb_spec s 256); destruct (Z.geb_spec s 256); try lia.
+  rewrite big_Uint64_small by (pose proof two64_eq; lia).
   rewrite U256_mod. rewrite Z.shiftl_mul_pow2 by lia. reflexivity.
 Qed.
 
@@ -203,6 +226,7 @@ Proof.
   intros s v Hs Hv. unfold op_SHR, spec_SHR.
   rewrite (U256_small s), (U256_small v) by assumption. unfold word in Hs.
   destruct (Z.ltb_spec s 256); destruct (Z.geb_spec s 256); try lia.
+  rewrite big_Uint64_small by (pose proof two64_eq; lia).
   rewrite Z.shiftr_div_pow2 by lia. apply U256_small.
   apply div_word; [assumption|]. apply pow2_pos; lia.
 Qed.
@@ -212,7 +236,8 @@ Proof.
   intros s v Hs Hv Hc. unfold op_SAR, spec_SAR. change signed with S256.
   rewrite (U256_small s) by assumption. unfold word in Hs.
   destruct (Z.ltb_spec s 256); destruct (Z.geb_spec s 256); try lia.
-  - rewrite U256_mod. rewrite Z.shiftr_div_pow2 by lia. reflexivity.
+  - rewrite big_Uint64_small by (pose proof two64_eq; lia).
+    rewrite U256_mod. rewrite Z.shiftr_div_pow2 by lia. reflexivity.
   - assert (Hv0 : v <> 0) by lia.
     pose proof (S256_zero v Hv) as Hz.
     destruct (Z.ltb_spec (S256 v) 0).
@@ -345,6 +370,8 @@ Proof.
   intros b x Hb Hx. unfold op_SIGNEXTEND, spec_SIGNEXTEND, sext, unsigned.
   unfold word in Hb.
   destruct (Z.ltb_spec b 31) as [Hlt|Hge]; [|reflexivity].
+  rewrite (big_Uint64_small b) by (pose proof two64_eq; lia).
+  rewrite (wrap64_small (b * 8 + 7)) by (pose proof two64_eq; lia).
   set (bit := b * 8 + 7).
   assert (Hbit : 0 <= bit <= 247) by (unfold bit; lia).
   replace (8 * (b + 1)) with (bit + 1) by (unfold bit; lia).
